@@ -302,7 +302,10 @@ func runChild(prop, tier, only, resultPath string, seed int) {
 		mathInts = true
 		res.Bounds["integers"] = "mathematical integers (no wrap-around modelled; harness bounds keep values far below 2^63)"
 	}
-	if meta.FP == "relaxed" {
+	if meta.FP == "uf" {
+		e.fpRelaxed, e.fpUF = true, true
+		res.FPMode = "uninterpreted: float operators are uninterpreted functions (sound abstraction; proves equalities that follow from equal operands)"
+	} else if meta.FP == "relaxed" {
 		e.fpRelaxed = true
 		res.FPMode = "relaxed-real (every float op rounded within 2^-53 relative)"
 	} else {
